@@ -111,10 +111,13 @@ package snapshot
 //@   assert[C08] before "options = append(options, fmt.Sprintf(\"lowerdir=%s\", strings.Join(parentPaths, \":\")))" : forall j int :: 0 <= j && j < len(s.ParentIDs) ==> parentPaths[j] == upath(o.root, s.ParentIDs[j])
 
 // ---- C08: Remove touches directories and backend mounts only after the removal is committed ----
+// (C09: a crash or a failed commit between the two steps must leave the directory of a still-recorded snapshot alone, so
+// nothing is reclaimed before the commit either)
 //@ func (o *snapshotter) Remove
-//@   props C08
+//@   props C08,C09
 //@   requires o.ms != nil
-//@   ensures[C08] err != nil ==> cleanups == old(cleanups)
+//@   ensures[C08,C09] err != nil ==> cleanups == old(cleanups)
+//@   assert[C08,C09] before "return t.Commit()" : cleanups == old(cleanups) && (forall k string :: removeTried[k] == old(removeTried[k]))
 // ... and the backend is asked to unmount nothing before the removal is committed: a removal the metadata store refuses
 // (a snapshot that still has children) or that fails to commit leaves every backend mount alone
 //@   assert[C08] before "return t.Commit()" : forall k string :: unmountTried[k] == old(unmountTried[k])
@@ -207,3 +210,29 @@ package snapshot
 //@   assert[C08] before "o.commit(ctx, true, target, key" : base.Labels != nil && base.Labels[remoteLabel] == remoteLabelVal && fsMountsOK == old(fsMountsOK) + 1
 //@   ensures[C08] result1 == nil ==> remoteCommitTried == old(remoteCommitTried)
 //@   ensures[C08] remoteCommitTried == old(remoteCommitTried) || remoteCommitTried == old(remoteCommitTried) + 1
+
+// ---- C08: Cleanup reclaims every garbage directory it found; Close unmounts the remote snapshots before the store goes ----
+// cleanup hands every directory the scan reported to cleanupSnapshotDirectory (unmount, then delete) -- a failure on one
+// directory does not stop the pass -- and remembers which kind of scan it ran (scanCommitted). Cleanup runs the garbage
+// scan only (it never touches the directories of live snapshots, committed remote ones included); Close runs the
+// shutdown scan over the committed remote snapshots and closes the metadata store only afterwards.
+//@ ghost scanCommitted bool
+//@ func (o *snapshotter) cleanup
+//@   props C08
+//@   requires o.ms != nil
+//@   ghostentry scanCommitted = cleanupCommitted
+//@   loop 0 invariant[C08] cleanups == old(cleanups) + rangeidx + 1 && len(rangeslice) == len(cleanup) && scanCommitted == cleanupCommitted
+//@   ensures[C08] scanCommitted == cleanupCommitted
+//@   ensures[C08] result != nil ==> cleanups == old(cleanups)
+//@   ensures[C08] result == nil ==> cleanups - old(cleanups) == len(cleanup)
+//@ func (o *snapshotter) Cleanup
+//@   props C08
+//@   requires o.ms != nil
+//@   ensures[C08] !scanCommitted
+//@ func (ms *github.com/containerd/containerd/v2/core/snapshots/storage.MetaStore) Close
+//@   trusted
+//@   modifies nothing
+//@ func (o *snapshotter) Close
+//@   props C08
+//@   requires o.ms != nil
+//@   assert[C08] before "return o.ms.Close()" : scanCommitted
